@@ -15,6 +15,7 @@ Import ListNotations.
 From JB Require Import Constants Bytes Utf8 Num NumProofs Value Codec Order OrderProofs CodecProofs RoundtripProofs TreeOps
   JsonText SetOps Dispatch DispatchProofs MiscProofs Walk WalkProofs Iter IterProofs Builder BuilderProofs BuilderFrame
   CompareWalk CompareWalkProofs ContainWalk ContainWalkProofs SetWalk SetWalkProofs.
+From JB Require Import BufSt EditStProofs.
 Open Scope N_scope.
 Set Default Timeout 120.
 
@@ -50,7 +51,7 @@ Theorem array_distinct_b_enc_any a buf : wfb a = true ->
 Proof.
   intros W. destruct (arr_or_not a) as [[l ->]|Hn].
   - apply array_distinct_b_enc; [exact W|apply distinct_wf; exact W].
-  - unfold array_distinct_b, array_distinct_t.
+  - rewrite ?array_distinct_b_eq. unfold array_distinct_t.
     destruct (doc_hdr a W) as (h & Rh & Th). rewrite Rh, Th.
     rewrite (top_type_not_arr a Hn), (single_item_enc a h W Hn Th). cbn [bind].
     rewrite (items_single a Hn). cbn [distinct_acc existsb]. change [raw_entry (key a)] with (map raw_of [a]).
@@ -62,7 +63,7 @@ Theorem array_intersection_b_enc_any a b buf : wfb a = true -> wfb b = true ->
 Proof.
   intros Wa Wb. destruct (arr_or_not a) as [[l ->]|Hn].
   - apply array_intersection_b_enc; [exact Wa|exact Wb|apply inter_wf; exact Wa].
-  - unfold array_intersection_b, array_intersection_t.
+  - rewrite ?array_intersection_b_eq. unfold array_intersection_t.
     destruct (doc_hdr a Wa) as (h1 & R1 & T1). destruct (doc_hdr b Wb) as (h2 & R2 & T2). rewrite R1, R2.
     destruct (count_items_enc b h2 Wb R2 T2) as (m & Em & Rm & Pm). rewrite Em. cbn [bind]. rewrite T1.
     pose proof (items_wf b Wb) as Wm.
@@ -79,7 +80,7 @@ Theorem array_except_b_enc_any a b buf : wfb a = true -> wfb b = true ->
 Proof.
   intros Wa Wb. destruct (arr_or_not a) as [[l ->]|Hn].
   - apply array_except_b_enc; [exact Wa|exact Wb|apply except_wf; exact Wa].
-  - unfold array_except_b, array_except_t.
+  - rewrite ?array_except_b_eq. unfold array_except_t.
     destruct (doc_hdr a Wa) as (h1 & R1 & T1). destruct (doc_hdr b Wb) as (h2 & R2 & T2). rewrite R1, R2.
     destruct (count_items_enc b h2 Wb R2 T2) as (m & Em & Rm & Pm). rewrite Em. cbn [bind]. rewrite T1.
     pose proof (items_wf b Wb) as Wm.
@@ -98,7 +99,7 @@ Theorem set_functions_forms_any t u a b buf : wfb a = true -> wfb b = true -> st
   array_except_w t u buf = Ok (buf ++ enc (array_except_t a b)) /\
   array_overlap_w t u = Ok (array_overlap_t a b).
 Proof.
-  intros Wa Wb Sa Sb. unfold array_distinct_w, array_intersection_w, array_except_w.
+  intros Wa Wb Sa Sb. rewrite ?array_distinct_w_eq, ?array_intersection_w_eq, ?array_except_w_eq.
   rewrite (as_jsonb_stands t a Wa Sa), (as_jsonb_stands u b Wb Sb). cbn [bind].
   split; [apply array_distinct_b_enc_any; exact Wa|].
   split; [apply array_intersection_b_enc_any; assumption|].
